@@ -337,6 +337,10 @@ ClaimedIn(d, a, n, s) == \E r \in d.nps : r.app = a /\ r.name = n /\ r.side = s 
 Protected(g, o, a, i) ==   \* C12's antecedent
   \/ \E x \in g.lastOk : x.app = a /\ x.mbox = i /\ o.now - x.t < EXP
   \/ Subscribers(g, a, i) # {}
+\* "a client may be away for the expiration time minus one sweep period" (C12.c): a channel that still
+\* had a subscriber so recently has not been idle for the expiration time, so its expiry is not due
+Away(g, o, a, i) ==
+  ~g.faulted /\ EXP > PERIOD /\ \E x \in g.lastSub : x.app = a /\ x.mbox = i /\ o.now - x.t < EXP - PERIOD
 RelName(g, o) == IF o.e.m.nameplate # ABSENT THEN o.e.m.nameplate ELSE g.gc[o.e.c].npId
 
 \* (a) a claim is ended only by its side's release, by expiry, or by the
@@ -348,6 +352,7 @@ C07a(g, o, g2) ==
         \/ o.e.k \in {"Cmd", "CrashInCmd"} /\ m.type = "release" /\ PErrOf(g, o) = ABSENT
              /\ cn.app = r.app /\ cn.side = r.side /\ RelName(g, o) = r.name
         \/ SweepLike(o) /\ ~Protected(g, o, r.app, MboxOfNp(o.db, r.app, r.name))
+                        /\ ~Away(g, o, r.app, MboxOfNp(o.db, r.app, r.name))
         \/ o.e.k \in {"Cmd", "CrashInCmd"} /\ m.type = "close" /\ PErrOf(g, o) = ABSENT
              /\ cn.app = r.app
              /\ TargetMbox(g, o, o.db) = MboxOfNp(o.db, r.app, r.name)
